@@ -13,7 +13,7 @@ class C06(HistCheck):
             "both rank-and-crowding survivals with every metric, Das-Dennis reference directions for NSDE-R; per generation the new population is compared with the "
             "model step (recorded oracle answers) and judged by an independent dominance oracle; NSDE-R's reference-direction survival is pymoo code: oracle only; "
             "non-trivial = run of >= 2 generations; distinct by hash"
-            "; 30% of NSDE/GDE3 cases use the algorithm's default survival object, 30% of all cases run after a default-constructed algorithm of the same class was stepped on another (constrained <-> unconstrained) problem in the same process; one case in four or five is a multi-feature scenario taken in turn and run in a process of its own (the algorithm's default survival object after a run on an unconstrained problem, now on a problem with 20-80% feasible points; constraint-ranking or default survival with a small feasible region reached one member at a time; single-objective DE with a minimal population on a coarse plateau, 8 generations; constraint-ranking survival with two constraints and at most 30% feasible points; the dither range as one shared float array)")
+            "; 30% of NSDE/GDE3 cases use the algorithm's default survival object, 30% of all cases run after a default-constructed algorithm of the same class was stepped on another (constrained <-> unconstrained) problem in the same process; one case in four or five is a multi-feature scenario taken in turn and run in a process of its own (the algorithm's default survival object after a run on an unconstrained problem, now on a problem with 20-80% feasible points; constraint-ranking or default survival with a small feasible region reached one member at a time; single-objective DE with a minimal population on a coarse plateau, 8 generations; constraint-ranking survival with two constraints and at most 30% feasible points; the dither range as one shared float array; an objective that is +inf on part of the box (cd / ce); advance_after_initial_infill=False); 15% of the two-objective cd / ce cases have such an infinite region and 12% of the DE cases that flag")
     ASSUMPTIONS = ["NSGA-III ReferenceDirectionSurvival (NSDE-R) is not modelled: its output is judged by the independent oracle only (validated contract)",
                    "survival oracles as in C03"]
 
